@@ -245,6 +245,42 @@ class Exec:
         self.cur.update(want)
         self.last_scribbled = None
 
+    def op_import_partial(self, drop, fresh, via_file):
+        """Import a state dictionary (or a state file) that lacks some recorded quantities, as written by an older version or
+        by a caller who exports only what they need.  Documented semantics: merge - keys present are replaced, absent keys keep
+        what the manager holds (nothing, for a fresh manager).  Later commits must still append one batch per quantity."""
+        if self.sampler is not None:
+            return
+        d = self.sm.to_dict()
+        for k in drop:
+            d["_history"].pop(k, None)
+        target = self.SM(D) if fresh else self.sm
+        if via_file:
+            import dill, io, sys
+
+            simfs.mount(self.fs)
+            try:
+                if "/simfs/sm" not in self.fs.dirs:
+                    self.fs.sys_mkdir("/simfs/sm")
+                with open("/simfs/sm/partial.state", "wb") as f:
+                    dill.dump(d, f)
+                so = sys.stdout
+                sys.stdout = io.StringIO()
+                try:
+                    target.load_state("/simfs/sm/partial.state")
+                finally:
+                    sys.stdout = so
+                    self.fs.close_all()
+            finally:
+                simfs.umount()
+        else:
+            target.update_from_dict(d)
+        if fresh:
+            for k in drop:
+                self.hist[k] = []
+            self.sm = target
+        self.last_scribbled = None
+
     def op_save_load(self):
         simfs.mount(self.fs)
         try:
@@ -379,6 +415,7 @@ def gen_ops(rnd, mode, n_ops):
             lambda: ["from_dict"],
             lambda: ["update_from_dict", rnd.sample(ALL_KEYS, rnd.randrange(1, 5)), rnd.randrange(10**6)],
             lambda: ["save_load"],
+            lambda: ["import_partial", rnd.sample(["steps", "efficiency", "acceptance", "calls", "ess", "blobs"], rnd.randrange(1, 5)), rnd.random() < 0.7, rnd.random() < 0.4],
         ]
         if rnd.random() < 0.7:  # most sequences start from a committed, MIS-ready history
             for _ in range(rnd.randrange(1, 4)):
